@@ -199,7 +199,7 @@ class Runner:
         self.last_changer = None
         self.assigned = set()
         self.list_built_with = None
-        self.edge_op_since_edit = False
+        self.edge_op_since = {}  # parameter name -> an edge operation happened since its last assignment
 
     def probe(self, k):
         self.probes[k] = self.probes.get(k, 0) + 1
@@ -226,10 +226,11 @@ class Runner:
                 return False  # the statement compares with the state *before* a pending conversion
             blks = list(core.iterBlocks())
             if st["which"] in ("power", "vVol"):
-                self.edge_op_since_edit = False
+                self.edge_op_since[st["which"]] = False
                 self.assigned.add(st["which"])
             if st["which"] == "mgFlux":
                 self.assigned.add("lastMgFlux")
+                self.edge_op_since["lastMgFlux"] = False
             if st["which"] == "power":
                 for j, b in enumerate(blks):
                     b.p.power = 1000.0 * st["u"] + j
@@ -240,7 +241,7 @@ class Runner:
                 import numpy as np
 
                 self.assigned.add("mgFlux")
-                self.edge_op_since_edit = False
+                self.edge_op_since["mgFlux"] = False
                 for j, b in enumerate(blks):
                     arr = np.array([1.0 * st["u"] + j, 2.0, 0.5 * j])
                     # the same array object on two parameters (what "last = current" bookkeeping does)
@@ -324,7 +325,8 @@ class Runner:
             # are cached); what the totals are in that state is C02's subject, not this property's
             totals(core)
             core_digest(core)
-            self.edge_op_since_edit = True
+            for pn in self.assigned:
+                self.edge_op_since[pn] = True
             added = len(core) - n0
             nonc = [a for a in lower if tuple(int(x) for x in a.spatialLocator.indices[:2]) != (0, 0)]
             if added != len(nonc):
@@ -340,7 +342,8 @@ class Runner:
             e = self.edge or gc.EdgeAssemblyChanger()
             had = self.edge is not None
             e.removeEdgeAssemblies(core)
-            self.edge_op_since_edit = True
+            for pn in self.assigned:
+                self.edge_op_since[pn] = True
             if had:
                 now = core_digest(core)
                 for field, a, b in diff_digest(self.before_edge, now):
@@ -402,7 +405,7 @@ class Runner:
                         "C13.times3",
                         f"step {k}: total {key} after convert is {t1[key]}, third-core value was {t0[key]} (x3 = {3.0 * t0[key]})",
                         what="volume-integrated" if key.startswith("sum_") else key if not key.startswith("m_") else "nuclide-mass",
-                        edgeOpSinceAssignment=self.edge_op_since_edit,
+                        edgeOpSinceAssignment=bool(self.edge_op_since.get(key[4:], False)),
                         firstAssignedAfterChangerBuiltItsList=bool(
                             self.plan["config"].get("reuseChanger") and self.list_built_with is not None and key[4:] not in self.list_built_with
                         ),
